@@ -28,6 +28,10 @@ func (e *Engine) lemmaValue(kind, name string, st *State, bound map[string]*Term
 		id := mkConst(name, SInt)
 		st.assume(mkCmp(">=", e.slen(id), mkInt(0)))
 		return VStream{ID: id, Elem: f64}
+	case "istream":
+		id := mkConst(name, SInt)
+		st.assume(mkCmp(">=", e.slen(id), mkInt(0)))
+		return VStream{ID: id, Elem: types.Typ[types.Int]}
 	case "int":
 		return VTerm{T: mkConst(name, SInt), Typ: types.Typ[types.Int]}
 	case "real":
@@ -50,6 +54,7 @@ func (e *Engine) verifyLemma(name string, c *Contract) *FuncReport {
 	e.idTerms = map[string]*Term{}
 	e.baseNames = map[string]Value{}
 	e.selfNames = map[string]Value{}
+	e.callRes = map[string][]Value{}
 	e.dynType = map[string]types.Type{}
 	e.nfresh = 0
 	rep := &FuncReport{Key: fi.Key, Tags: c.tags()}
